@@ -1,7 +1,7 @@
 from harness import evprops, hcommon, hprop_run, mixed
 
 PROP = "C12"
-EXTRA_PROPS = ("C12b", "C12c")      # invariant: no new file data after the sender's notice of cancellation
+EXTRA_PROPS = ("C12b", "C12c", "C12d")      # invariant: no new file data after the sender's notice of cancellation
 FAULT_TABLES = False
 DEFAULT_ONLY = False
 
